@@ -32,7 +32,8 @@ class StableWorld:
     def __init__(self, m):
         self.cr = _cr()
         self.cr.GLOBAL_PRIOR_COMB_COUNTS.clear()
-        self.cands = [(f'f{i}', 'label') for i in range(m)]
+        # both orientations and names on both sides of 'label' in lexicographic order (keys must be used verbatim)
+        self.cands = [((f'f{i}', 'label') if i % 2 == 0 else ('label', f'z{i}')) if i % 3 else (f'z{i}', f'f{i}') for i in range(m)]
         self.m = m
         self.tally = Counter()
         self.nontrivial = False
@@ -95,7 +96,7 @@ def step(cr, cands, cap, tally, fairness):
     return fails
 
 
-BASE4 = [('a', 'label'), ('b', 'label'), ('c', 'label'), ('d', 'label')]
+BASE4 = [('a', 'label'), ('label', 'b'), ('z', 'label'), ('user', 'item')]
 SUBLISTS = [tuple(BASE4[i] for i in range(4) if mask >> i & 1) for mask in range(1, 16)]
 DUPLISTS = [
     (('a', 'a'), ('a', 'b'), ('b', 'b'), ('a', 'a'), ('b', 'b')),   # the pairwise-mode shape: diagonal listed twice
@@ -161,22 +162,22 @@ def _job(job):
 
 
 def _e2e(st, n_batches):
-    """(c) integration: real compute_batch_ranking for several batches with a binding cap, target-only mode; the counter and
-    its exported copy must equal the number of batches in which each pair occurs in that batch's triplets."""
-    import json
-    import os
+    """(c) integration: real compute_batch_ranking for several batches with a binding cap, target-only mode; the counter (keyed by the
+    candidate tuples exactly as the pair enumerator produced them) must equal the number of batches in which each pair occurs in that
+    batch's triplets, with no other keys."""
+    import pandas as pd
     from mc import harness
-    from mc.common import scratch_dir, rm_scratch
     cr = _cr()
-    for ncols, cap in [(3, 1), (3, 2), (4, 3), (4, 9)]:
+    layouts = [(['f0', 'z1', 'label'], 1), (['z0', 'label', 'f1'], 2), (['z0', 'label', 'f1', 'm2'], 3), (['user', 'item', 'label', 'a'], 9)]
+    for cols, cap in layouts:
         harness.reset_state()
-        cols = [f'f{i}' for i in range(ncols)] + ['label']
         args = harness.make_args(combination_number_upper_bound=cap, heuristic='MI-numba-randomized', target_ranking_only='True')
+        cands = cr.get_combinations_from_columns(pd.Index(cols), args)
         tally = Counter()
         fails = []
         for b in range(n_batches):
-            rows = [[str((r * (i + 2) + b) % 3) for i in range(ncols)] + [str(r % 2)] for r in range(6)]
-            ok, res = safe(cr.compute_batch_ranking, rows, set(), args, harness.InlinePool(), cols, harness.RecLogger(), harness.NullBar())
+            rows = [[str((r * (i + 2) + b) % 3) if c != 'label' else str(r % 2) for i, c in enumerate(cols)] for r in range(6)]
+            ok, res = safe(cr.compute_batch_ranking, rows, set(), args, harness.InlinePool(), list(cols), harness.RecLogger(), harness.NullBar())
             st.count('evaluations')
             st.count('transitions')
             st.count('traces_validated')
@@ -184,22 +185,22 @@ def _e2e(st, n_batches):
                 fails.append(f'exception {res}')
                 break
             trip = res[0].triplet_scores
-            pairs = {tuple(sorted((a, bb))) for a, bb, _ in trip}
-            n_cand = ncols + 1
-            if len(pairs) != min(cap, n_cand):
-                fails.append(f'batch {b}: {len(pairs)} distinct pairs evaluated, cap={cap}, candidates={n_cand}')
-            for p in pairs:
-                tally[p] += 1
-            g = {tuple(sorted(k)): v for k, v in cr.GLOBAL_PRIOR_COMB_COUNTS.items()}
+            pairs = {frozenset((a, bb)) for a, bb, _ in trip}
+            if len(pairs) != min(cap, len(cands)):
+                fails.append(f'batch {b}: {len(pairs)} distinct pairs evaluated, cap={cap}, candidates={len(cands)}')
+            for c in cands:
+                if frozenset(c) in pairs:
+                    tally[c] += 1
+            g = dict(cr.GLOBAL_PRIOR_COMB_COUNTS)
             if any(g.get(k, 0) != tally.get(k, 0) for k in set(g) | set(tally)):
-                fails.append(f'batch {b}: counter {g} != pairs actually evaluated {dict(tally)}')
+                fails.append(f'batch {b}: reported counts {g} != batches in which each candidate was evaluated {dict(tally)}')
                 break
-            vals = list(g.values()) + [0] * (n_cand - len(g))
+            vals = [g.get(c, 0) for c in cands]
             if max(vals) - min(vals) > 1:
                 fails.append(f'batch {b}: unfair counts {g}')
         st.count('states', n_batches)
         if fails:
-            st.violation({'kind': 'e2e', 'ncols': ncols, 'cap': cap, 'batches': n_batches}, '; '.join(fails),
+            st.violation({'kind': 'e2e', 'columns': cols, 'cap': cap, 'batches': n_batches}, '; '.join(fails),
                          {'family': 'e2e', 'fail': fails[0][:40]})
     harness.reset_state()
 
